@@ -134,6 +134,13 @@ def transpile_token(
         elif "+" in parts:
             parts = parts + "* I"
 
+        if "." in parts and "I" not in parts:
+            # A real literal with a decimal point is exactly the fraction
+            # it spells; nsimplify would send it through a float and
+            # mpmath.identify (1.4142135623731 -> sqrt(2)).
+            return indent_str(
+                f'stack.append(sympy.Rational("{parts}"))', indent
+            )
         return indent_str(f'stack.append(sympy.nsimplify("{parts}"))', indent)
     elif token.name == TokenType.GENERAL:
         return indent_str(elements.get(token.value, ("pass\n", -1))[0], indent)
